@@ -15,6 +15,15 @@ func init() {
 				func(k string) bool { return k != "String.Index:out-of-range" })
 		}
 	})
+	// a program that fails under the reference engine fails under fq: whatever value the program raised (null and false
+	// included) is recorded as a truthy error, so the run reports failure (C17.writes / C17.handlers obligations)
+	RegisterExtra("C07", func(r *fw.Run, p *fw.Program) {
+		sc := r.Scratch()
+		if f := Get("C17"); f != nil {
+			f(sc, p)
+			r.Import(sc, "C17.writes", "C07.errexit", "every write of the three error memories of the CLI is a pre-evaluation reset or a truthy record: a program ending in error(null) / error(false) still makes fq fail as the reference engine does (C17.writes obligations)", 4, nil)
+		}
+	})
 	// one evaluation must not change a value that later evaluations share (decode trees, jq arrays/objects)
 	RegisterExtra("C18", func(r *fw.Run, p *fw.Program) {
 		jqImmutAs(r, p, "C18.immut")
